@@ -13,6 +13,7 @@ from fractions import Fraction
 from typing import Dict, List, Optional, Sequence, Tuple
 
 from .model import AnalysisError, FunctionInfo
+from .model import is_helper_name as _is_helper_name
 from .sym import (FALSE, NONE, TRUE, Evaluator, Frame, Term, Unsupported, is_private_helper, lin, satisfiable, show, subst, subterms, sym, t_and, t_not)
 
 MAX_PATHS = 20000
@@ -107,6 +108,7 @@ class PathEnumerator:
         self.loop_view = False                      # spell comprehensions over private helpers as loops (see normalize.Normalizer.body)
         self.single_use_any = False                 # opt-in: a function called at one place only is read as part of its caller, however its result is used
         self.unroll_literal_loops = True            # ``for x in (a, b, c)`` over a literal is read as the straight-line code it abbreviates
+        self.unroll_limit = 8                       # ... up to this many items
         self.own_class_helpers = False              # opt-in: ``x = self.helper(..)`` on a non-interface method of the analysed class is read in place
 
     def function_paths(self, fn: FunctionInfo, self_cls=None, args: Optional[Dict[str, Term]] = None) -> List[Path]:
@@ -453,7 +455,7 @@ class PathEnumerator:
                     # ``c = other_builder(...)`` followed by ``c.add(...)``: this function continues building what the other one started;
                     # the other builder's steps are part of this one's
                     d, info = tgt.node, tgt
-        elif isinstance(v.func, ast.Attribute) and self.inline_private and ((v.func.attr.startswith("_") and not v.func.attr.startswith("__"))
+        elif isinstance(v.func, ast.Attribute) and self.inline_private and (_is_helper_name(v.func.attr)
                                                                               or self._single_use_name(v.func.attr, fr) or self._own_helper_name(v, fr)):
             try:
                 base = self.ev.expr(v.func.value, self._frame(fr, p))
@@ -500,6 +502,47 @@ class PathEnumerator:
                         cache["&" + nm] = cache.get("&" + nm, 0) + 1
             self.ev.model._call_site_counts = cache
         return cache.get(name, 0)
+
+    def _helper_def_of(self, call: ast.Call, fr: Frame):
+        """the definition a statement-level call of a helper (private or new name) refers to, resolved syntactically"""
+        f = call.func
+        if isinstance(f, ast.Name) and _is_helper_name(f.id) and fr.fn is not None:
+            tgt = self.ev.model.lookup_symbol(fr.module, f.id)
+            return tgt.node if isinstance(tgt, FunctionInfo) else None
+        if isinstance(f, ast.Attribute) and _is_helper_name(f.attr) and isinstance(f.value, ast.Name) and fr.fn is not None:
+            c = None
+            if fr.fn.cls is not None and f.value.id in (fr.fn.self_name, "cls"):
+                c = fr.self_cls or fr.fn.cls
+            else:
+                tgt = self.ev.model.lookup_symbol(fr.module, f.value.id)
+                c = tgt if tgt is not None and not isinstance(tgt, (FunctionInfo, tuple)) else None
+            if c is not None and hasattr(c, "resolve_all"):
+                fs = c.resolve_all(f.attr)
+                if len(fs) == 1:
+                    return fs[0].node
+        return None
+
+    def _names_updated_through_helpers(self, stmts, fr: Frame) -> List[str]:
+        out: List[str] = []
+        for st in stmts:
+            for n in ast.walk(st):
+                if isinstance(n, ast.Call):
+                    d = self._helper_def_of(n, fr)
+                    if d is None:
+                        continue
+                    augs = aug_assigned_params(d)
+                    if not augs:
+                        continue
+                    params = [a.arg for a in d.args.posonlyargs + d.args.args]
+                    if params and params[0] in ("self", "cls") and isinstance(n.func, ast.Attribute):
+                        params = params[1:]
+                    bound = dict(zip(params, n.args))
+                    bound.update({k.arg: k.value for k in n.keywords if k.arg})
+                    for a in augs:
+                        v = bound.get(a)
+                        if isinstance(v, ast.Name) and v.id not in out:
+                            out.append(v.id)
+        return out
 
     def _resolve_lens(self, c: Term, p: Path, st: ast.stmt, fr: Frame) -> Term:
         """``len(xs)`` of a local list whose elements are fixed on the path so far (a display extended by appends of displays) is that number.
@@ -623,12 +666,15 @@ class PathEnumerator:
             v = self.ev.expr(node, f)
             # a container created at the call site is one object inside the helper (keep its identity)
             return ("var", name, getattr(node, "lineno", 0), v) if _fresh_container(v) else v
+        arg_nodes: Dict[str, ast.expr] = {}
         for name, a in zip(params, call.args):
             given[name] = arg(name, a)
+            arg_nodes[name] = a
         if len(call.args) > len(params):
             raise Unsupported(f"call of {d.name}: too many positional arguments")
         for k in call.keywords:
             given[k.arg] = arg(k.arg, k.value)
+            arg_nodes[k.arg] = k.value
         positional = [a.arg for a in (d.args.posonlyargs + d.args.args)]
         defaults = dict(zip(positional[::-1], d.args.defaults[::-1]))
         for a, dv in zip(d.args.kwonlyargs, d.args.kw_defaults):
@@ -675,7 +721,16 @@ class PathEnumerator:
                 raise Unsupported(f"helper {d.name} leaves with {q.exit}")
             v = q.value if q.exit == "return" and q.value is not None else NONE
             env = dict(outer)
-            r = Path(q.cond, q.events, env)
+            evs = q.events
+            if info is not None:
+                for pa in aug_assigned_params(d):
+                    an = arg_nodes.get(pa)
+                    if isinstance(an, ast.Name) and pa in q.env and an.id in outer:
+                        # ``param += x`` updates the caller's object in place: the caller's name denotes the updated value afterwards
+                        env[an.id] = q.env[pa]
+                        if an.id != pa:
+                            evs = [Event(e.kind, e.node, e.term, (an.id,) + tuple(e.extra[1:])) if e.kind == "aug" and e.extra and e.extra[0] == pa and e not in p.events else e for e in evs]
+            r = Path(q.cond, evs, env)
             r.events.append(Event("leave-local", call, ("const", d.name)))
             if isinstance(st, ast.Return):
                 r.value, r.exit, r.exit_node = v, "return", st
@@ -847,16 +902,31 @@ class PathEnumerator:
         self._cur_env = dict(p.env)
         # variables assigned anywhere in the loop are loop-carried: havoc them for the body summary
         assigned = _assigned_names(st.body)
+        for n in self._names_updated_through_helpers(st.body, fr):
+            if n not in assigned:
+                assigned.append(n)
         for n in assigned:
             if n in body_env:
                 body_env[n] = ("loopvar", n, st.lineno)
         it: Optional[Term] = None
-        if it_override is None and isinstance(st, ast.For) and self.unroll_literal_loops and isinstance(st.iter, (ast.Tuple, ast.List)) and 0 < len(st.iter.elts) <= 8 \
+        if it_override is None and isinstance(st, ast.For) and self.unroll_literal_loops and isinstance(st.iter, (ast.Tuple, ast.List)) and 0 < len(st.iter.elts) <= self.unroll_limit \
                 and not any(isinstance(x, ast.Starred) for x in st.iter.elts) and not st.orelse:
             return self._unrolled(st, p, fr)
         if isinstance(st, ast.For):
             it = it_override if it_override is not None else ev.expr(st.iter, f)
             it = _concrete_iter(it)
+            if self.split_ite and not st.orelse:
+                # ``for x in (a if c else b).nodes():`` -- the choice is made once, before the loop: the if-statement it abbreviates
+                ites = subterms(it, lambda x: x[0] == "ite")
+                if ites and not subterms(ites[0][1], lambda x: x[0] in ("bound", "loopvar")):
+                    outp: List[Path] = []
+                    for c_, alt in ((ites[0][1], ites[0][2]), (t_not(ites[0][1]), ites[0][3])):
+                        q = p.fork(c_)
+                        if self.feasible(q.cond):
+                            self._assume(q, c_)
+                            q.events.append(Event("branch", st, ites[0][1], extra=(c_ == ites[0][1])))
+                            outp.extend(self._loop(st, q, fr, it_override=subst(it, {ites[0]: alt})))
+                    return outp
             if it[0] == "concat" and not st.orelse:
                 # a loop over a chain of iterables is the loops over its parts, one after the other
                 live, done = [p], []
@@ -867,13 +937,13 @@ class PathEnumerator:
                             (nxt if r.exit == "fall" else done).append(r)
                     live = nxt
                 return done + live
-            if self.unroll_literal_loops and it[0] in ("tuple", "list") and not st.orelse and 0 < len(it[1]) <= 8 and not any(x[0] == "star" for x in it[1]):
+            if self.unroll_literal_loops and it[0] in ("tuple", "list") and not st.orelse and 0 < len(it[1]) <= self.unroll_limit and not any(x[0] == "star" for x in it[1]):
                 return self._unrolled_terms(st, list(it[1]), p, fr)
             if self.unroll_literal_loops and it[0] == "var" and not st.orelse:
                 # a local list whose elements are fixed on this path (filled by appends of displays): the loop is the straight-line code
                 from .listflow import concrete_list
                 items = concrete_list(p, it)
-                if items is not None and 0 < len(items) <= 8 and all(x[0] in ("tuple", "list", "new", "const", "fn", "enum", "lin") for x in items):
+                if items is not None and 0 < len(items) <= self.unroll_limit and all(x[0] in ("tuple", "list", "new", "const", "fn", "enum", "lin") for x in items):
                     return self._unrolled_terms(st, items, p, fr)
             mapped = None
             if it[0] == "var" and it[3][0] == "comp" and it[3][1] == "gen":
@@ -885,7 +955,7 @@ class PathEnumerator:
                 if len(cbs) <= 1:
                     mapped = (it[2], tuple(conds), cbs[0] if cbs else None)
                     it = dom
-            if mapped is not None and self.unroll_literal_loops and it[0] in ("tuple", "list") and 0 < len(it[1]) <= 8 and not st.orelse \
+            if mapped is not None and self.unroll_literal_loops and it[0] in ("tuple", "list") and 0 < len(it[1]) <= self.unroll_limit and not st.orelse \
                     and not any(x[0] == "star" for x in it[1]):
                 # a filtered / mapped walk over a display: one guarded step per item
                 live, done = [p], []
@@ -993,6 +1063,27 @@ def _fresh_container(v: Term) -> bool:
     if v[0] == "call" and v[1] in ("set", "list", "dict", "OrderedDict", "defaultdict", "deque"):
         return True
     return False
+
+
+_IMMUTABLE_ANN = ("int", "float", "str", "bool", "bytes", "tuple", "Tuple", "frozenset", "complex")
+
+
+def aug_assigned_params(d: ast.FunctionDef) -> List[str]:
+    """parameters that the function updates with an augmented assignment (``param += x``): for objects with an in-place ``__iadd__`` (lists, arrays,
+    stim circuits ...) the caller's object is changed; parameters annotated with an immutable builtin are excluded"""
+    params = {a.arg: a for a in d.args.posonlyargs + d.args.args + d.args.kwonlyargs}
+    out: List[str] = []
+    for n in ast.walk(d):
+        if isinstance(n, ast.AugAssign) and isinstance(n.target, ast.Name) and n.target.id in params and n.target.id not in out:
+            ann = params[n.target.id].annotation
+            txt = ast.unparse(ann) if ann is not None else ""
+            if txt.split("[")[0].split(".")[-1] in _IMMUTABLE_ANN:
+                continue
+            # rebinding by a plain assignment anywhere makes it a local, not the caller's object
+            if any(isinstance(m, ast.Assign) and any(isinstance(t, ast.Name) and t.id == n.target.id for t in m.targets) for m in ast.walk(d)):
+                continue
+            out.append(n.target.id)
+    return out
 
 
 def _assigned_names(stmts: Sequence[ast.stmt]) -> List[str]:
